@@ -174,8 +174,27 @@ def install():
 OPS = ("pg", "subtree", "dp", "prg", "pg", "relabel", "alpha", "alpha_clear", "clear", "switch")
 
 
+OPS_TINY = ("pg", "alpha", "pg", "subtree", "alpha", "dp", "pg", "relabel")
+ALPHAS = {
+    "ordinary": [0.3, 2.0, 1.0, 5.0, 0.05, 1.0],
+    # values the concentration update can return one after the other: its 1e-10 floor, other tiny values, and values that
+    # agree to many digits - a cache key must tell all of them apart
+    "tiny": [1e-10, 3e-9, 6.5e-9, 2e-3, 1e-10 * (1 + 1e-6), 4e-9],
+}
+
+
 @st.composite
-def _history(draw):
+def _history(draw, alphas="ordinary"):
+    ops = OPS if alphas == "ordinary" else OPS_TINY
+    return dict(
+        alphas=alphas,
+        ops=[[draw(st.sampled_from(ops)), draw(st.integers(0, 5))] for _ in range(draw(st.integers(4, 14)))],
+        **draw(_history_base())
+    )
+
+
+@st.composite
+def _history_base(draw):
     return dict(
         kind="history",
         n=draw(st.integers(3, 6)),
@@ -186,7 +205,6 @@ def _history(draw):
         kernel=draw(st.sampled_from(["semi", "fully", "bootstrap"])),
         N=draw(st.integers(3, 8)),
         seed=draw(st.integers(0, 2 ** 31 - 1)),
-        ops=[[draw(st.sampled_from(OPS)), draw(st.integers(0, 5))] for _ in range(draw(st.integers(4, 14)))],
     )
 
 
@@ -200,7 +218,9 @@ def _stream(draw):
 
 
 def strategy(ctx, shard=0):
-    return _stream() if shard % 4 == 3 else _history()
+    if shard % 4 == 3:
+        return _stream()
+    return _history("tiny" if shard % 4 == 1 else "ordinary")
 
 
 def budget(ctx):
@@ -266,7 +286,9 @@ def _run_history(case):
             elif op == "relabel":
                 tree.relabel_nodes()
             elif op in ("alpha", "alpha_clear"):
-                td.prior.alpha = [0.3, 2.0, 1.0, 5.0, 0.05, 1.0][a % 6]
+                td.prior.alpha = ALPHAS[case.get("alphas", "ordinary")][a % 6]
+                if case.get("alphas") == "tiny":
+                    classes.append("tiny-or-nearly-equal-alpha-values")
                 alpha_changed = True
                 if op == "alpha_clear":
                     clear_proposal_dist_caches()
